@@ -73,6 +73,8 @@ def run(ctx, tier, res, tag=''):
         if s['fn'] == 'Avtp_GetField' and s['kind'] == 'load' and s['origin'] and any(o.startswith('param:pdu') for o in s['origin']):
             res.sample({'site': '%s:%s' % (FC.rel(s['loc'][0]), s['loc'][1]), 'function': s['fn'], 'access': s['kind'] + ' ' + s['width'],
                         'access_align': s['align'], 'guaranteed_by_declared_types': s['guarantee'], 'origin': s['origin']})
+    from .. import promises
+    promises.report(ctx, res, sorted(ctx.mod.functions), promises.ALIGN_KINDS, tag)
     res.rule = ('every load, store and mem-intrinsic operand of every library function (clang -O0 IR): the alignment the access carries must '
                 'not exceed the alignment guaranteed by the declared type of the pointer\'s origin (parameter, pointer loaded from caller '
                 'memory, alloca, global), propagated through casts, address arithmetic, phis and local slots; uint8_t* and the header '
